@@ -168,6 +168,14 @@ impl Prop for C09 {
                 .hang(None)
                 .shards(8)
                 .floor(tier.pick(10, 300)),
+            // the consumer goes away after 65 530 - 80 000 items (beyond 2^16 tickets): lookahead
+            // bound on the way, stop of the pulls and exit of the threads afterwards (two shards:
+            // the repo's workers spin while they wait for their turn)
+            Lane::new("long", tier.pick(6, 48))
+                .cap(tier.pick(600, 1500))
+                .hang(None)
+                .shards(2)
+                .floor(tier.pick(2, 12)),
         ]
     }
 
@@ -177,7 +185,8 @@ impl Prop for C09 {
          drops the iterator, either after an idle phase (lookahead measured) or in mid-flight (chaos: \
          with slow items around the drop point), upstream endless or just long enough); lanes sched \
          (controller-chosen interleavings at the verif schedule points, strategies as in C05) and \
-         chaos (free running with seeded delays). Monitor inside the upstream iterator: at every \
+         chaos (free running with seeded delays), lane long: free running, 2-4 workers, k in \
+         65 530..=80 000 with slow items around ticket 2^16. Monitor inside the upstream iterator: at every \
          pull, pulled - consumed <= L while the consumer lives and pulled - pulled_at_drop <= L \
          afterwards, L = 4*(W+buffer)+8 (a constant independent of the upstream length, twice what \
          the current code needs). After the drop the Drop of the upstream iterator must be observed \
@@ -262,8 +271,11 @@ impl Prop for C09 {
             };
         }
         let controlled = lane == "sched";
+        let long = lane == "long";
         let threads = if controlled {
             rng.random_range(1..=4u8)
+        } else if long {
+            rng.random_range(2..=4u8)
         } else {
             *[1u8, 2, 2, 3, 4, 4, 8, 16].get(rng.random_range(0..8)).unwrap()
         };
@@ -275,6 +287,9 @@ impl Prop for C09 {
             } else {
                 rng.random_range(0..=8)
             }
+        } else if long {
+            // the consumer goes away after more than 2^16 items
+            rng.random_range(65_530..=80_000)
         } else if rng.random_range(0..4) == 0 {
             rng.random_range(41..=300)
         } else {
@@ -306,6 +321,11 @@ impl Prop for C09 {
                 slow.push((k + rng.random_range(0..=(threads as usize + 2)), rng.random_range(50..4000u32)));
             }
         }
+        if long {
+            for _ in 0..rng.random_range(0..=3) {
+                slow.push((65_532 + rng.random_range(0..8), rng.random_range(200..20_000u32)));
+            }
+        }
         Case {
             lane: lane.to_string(),
             stack,
@@ -315,11 +335,11 @@ impl Prop for C09 {
             upstream,
             strategy,
             sseed: rng.random(),
-            chaos_level: rng.random_range(0..=4),
+            chaos_level: if long { 0 } else { rng.random_range(0..=4) },
             panic_at: vec![],
             idle_before_drop,
             slow,
-            second_pipe: if rng.random_range(0..4) == 0 {
+            second_pipe: if !long && rng.random_range(0..4) == 0 {
                 Some((rng.random_range(1..=3u8), rng.random_range(20..=300usize)))
             } else {
                 None
